@@ -6,6 +6,7 @@ package checks
 import (
 	"encoding/json"
 	"fmt"
+	"os"
 	"sort"
 	"strings"
 
@@ -17,6 +18,9 @@ import (
 
 	"verif/vsrv"
 )
+
+// c11AssignedSeq numbers the caller-assigned uuids of S2k (fresh per execution).
+var c11AssignedSeq uint64
 
 func c11MoreScenarios() []c11Scenario {
 	var sc []c11Scenario
@@ -213,6 +217,55 @@ func c11MoreScenarios() []c11Scenario {
 				}
 			}
 			return fmt.Sprintf("codes=%s type=%s", codes(w, 2), typ)
+		}})
+
+	// S2k: two new versions in two different repos, both asking for the same caller-assigned uuid. Sequentially the second
+	// request is refused; an identifier must never name two nodes.
+	sc = append(sc, c11Scenario{name: "S2k:repo:newversion-assigned-uuid||same-uuid-in-other-repo", setup: func() (*c11World, error) {
+		w, err := repoWorld()
+		if err != nil {
+			return nil, err
+		}
+		r2, err := vsrv.NewRepo()
+		if err != nil {
+			return nil, err
+		}
+		vsrv.Commit(r2)
+		w.nodes["root2"] = r2
+		c11AssignedSeq++
+		w.nodes["uuid"] = fmt.Sprintf("c11a%012x%016x", c11AssignedSeq, uint64(os.Getpid()))
+		return w, nil
+	},
+		bodies: func(w *c11World) []func() {
+			body := fmt.Sprintf(`{"note":"v","uuid":%q}`, w.nodes["uuid"])
+			return []func(){
+				func() { w.resp[0] = vsrv.PostS("node/"+w.root+"/newversion", body) },
+				func() { w.resp[1] = vsrv.PostS("node/"+w.nodes["root2"]+"/newversion", body) },
+			}
+		},
+		verdict: func(w *c11World) (bad []string) {
+			world := &c07World{roots: []string{w.root, w.nodes["root2"]}}
+			for _, iv := range c07Invariants(world.snapshot(), world) {
+				bad = append(bad, "dag-"+iv[0]+"\t"+iv[1])
+			}
+			return append(bad, c11PersistedIDs()...)
+		},
+		observe: func(w *c11World) string {
+			n := 0
+			for _, r := range datastore.VerifDump(w.root, w.nodes["root2"]).Repos {
+				for _, nd := range r.Nodes {
+					if nd.UUID == w.nodes["uuid"] {
+						n++
+					}
+				}
+			}
+			ok := 0
+			for _, r := range w.resp[:2] {
+				if acked(r) {
+					ok++
+				}
+			}
+			return fmt.Sprintf("acknowledged=%d nodes-with-the-uuid=%d", ok, n)
 		}})
 
 	// S2h / S2i: deleting a repo against an operation that saves the repo's metadata: the acknowledged deletion of one of
